@@ -31,11 +31,12 @@ theorem C12_count_inv (cfg : Cfg) (ops : List Op) (k : Svc) :
   · simp only [registered]; rw [h1]; simp
   · rw [h2]; simp
 
-/-- **The working tree contains all four repairs**: the switch values extracted from `trigger_init`,
-`ServiceDecorator.start`, `on_func_var_deleted` and `GlobalContext.start` are the repaired ones (undoing a repair in the source makes this theorem fail). -/
+/-- **The working tree contains all five repairs**: the switch values extracted from `trigger_init`,
+`ServiceDecorator.start`, `on_func_var_deleted`, `GlobalContext.start` and `service_register` / `service_remove` (the
+lower-cased key) are the repaired ones (undoing a repair in the source makes this theorem fail). -/
 theorem C12_cfg_current :
-    legacyCfg = ⟨true, false, false, false, false, true, false, false⟩ ∧
-    newCfg = ⟨false, false, true, true, true, false, true, true⟩ := by decide
+    legacyCfg = ⟨true, false, false, false, false, true, false, false, true⟩ ∧
+    newCfg = ⟨false, false, true, true, true, false, true, true, true⟩ := by decide
 
 /-- **A refused name is not remembered** (tie of `acquireAll`, which tracks a name only after `register` accepted it, to the
 source): in `trigger_init` the statement `self.trigger_service.add(srv_name)` comes after `Function.service_register(...)`,
@@ -57,10 +58,10 @@ at once (`legacyCfg`) and every definition's service names are distinct, the cou
 of registrations the live functions hold – for every operation sequence; `C12_duplicate_regress` shows that before the
 repair the hypothesis was needed. -/
 theorem C12_count_exact_partial (cfg : Cfg) (hd : cfg.delayTopLevel = false) (ops : List Op)
-    (hn : ∀ op ∈ ops, ∀ ctx fn var gen decl, op = .define ctx fn var gen decl → (decl.map (·.1)).Nodup) (k : Svc) :
+    (hn : ∀ op ∈ ops, ∀ ctx fn var gen decl, op = .define ctx fn var gen decl → ((foldDecl cfg decl).map (·.1)).Nodup) (k : Svc) :
     trackedCount (run cfg {} ops).holders k = cntOf (run cfg {} ops).reg k := by
   have key : ∀ (ops : List Op) (st : MState), Inv cfg st → (∀ k, trackedCount st.holders k = cntOf st.reg k) →
-      (∀ op ∈ ops, ∀ ctx fn var gen decl, op = .define ctx fn var gen decl → (decl.map (·.1)).Nodup) →
+      (∀ op ∈ ops, ∀ ctx fn var gen decl, op = .define ctx fn var gen decl → ((foldDecl cfg decl).map (·.1)).Nodup) →
       ∀ k, trackedCount (run cfg st ops).holders k = cntOf (run cfg st ops).reg k := by
     intro ops
     induction ops with
@@ -256,24 +257,27 @@ name it declares, Home Assistant holding the handler of *this* definition with t
 old function object is released only after the new registration (register-before-remove, seamless). -/
 theorem C12_latest_after_define (cfg : Cfg) (ops : List Op) (ctx : String) (fn : Option String) (var : String) (gen : Nat)
     (decl : List (Svc × Resp)) (hnow : (cfg.delayTopLevel && fn.isNone) = false)
-    (hok : (acquireAll cfg (ownerFor cfg ctx fn) gen (run cfg {} ops).reg decl []).ok = true)
-    (k : Svc) (hk : k ∈ decl.map (·.1)) :
-    ∃ rs, (k, rs) ∈ decl ∧
+    (hok : (acquireAll cfg (ownerFor cfg ctx fn) gen (run cfg {} ops).reg (foldDecl cfg decl) []).ok = true)
+    (k : Svc) (hk : k ∈ (foldDecl cfg decl).map (·.1)) :
+    ∃ rs, (k, rs) ∈ foldDecl cfg decl ∧
       aget k (step cfg (run cfg {} ops) (.define ctx fn var gen decl)).reg.handler = some ⟨gen, rs⟩ := by
   have hi := inv_run cfg ops {} (inv_init cfg)
   generalize run cfg {} ops = st at hi hok
-  obtain ⟨q1, q2, ⟨added, q3, q4, _⟩, _, _⟩ := acquireAll_spec cfg (ownerFor cfg ctx fn) gen decl st.reg [] hi.regOK
-  obtain ⟨o1, o2, _⟩ := acquireAll_ok cfg (ownerFor cfg ctx fn) gen decl decl st.reg [] (fun d hd => hd)
+  show ∃ rs, (k, rs) ∈ foldDecl cfg decl ∧
+      aget k (defineStep cfg st ctx fn var gen (foldDecl cfg decl)).reg.handler = some ⟨gen, rs⟩
+  generalize foldDecl cfg decl = D at hok hk ⊢
+  obtain ⟨q1, q2, ⟨added, q3, q4, _⟩, _, _⟩ := acquireAll_spec cfg (ownerFor cfg ctx fn) gen D st.reg [] hi.regOK
+  obtain ⟨o1, o2, _⟩ := acquireAll_ok cfg (ownerFor cfg ctx fn) gen D D st.reg [] (fun d hd => hd)
     (fun x hx => by simp at hx) hok
   have t1 := o2 k hk
   obtain ⟨rs, t2, t3⟩ := o1 k t1
   refine ⟨rs, t2, ?_⟩
-  simp only [step, defineStep, hnow, Bool.false_eq_true, if_false, startReg, hok, Bool.true_or, if_true]
-  have hu : (acquireAll cfg (ownerFor cfg ctx fn) gen st.reg decl []).reg.underflow = false := by rw [q2]; exact hi.noUnder
-  have pre : ∀ k, trackedCount st.holders k ≤ cntOf (acquireAll cfg (ownerFor cfg ctx fn) gen st.reg decl []).reg k := by
+  simp only [defineStep, hnow, Bool.false_eq_true, if_false, startReg, hok, Bool.true_or, if_true]
+  have hu : (acquireAll cfg (ownerFor cfg ctx fn) gen st.reg D []).reg.underflow = false := by rw [q2]; exact hi.noUnder
+  have pre : ∀ k, trackedCount st.holders k ≤ cntOf (acquireAll cfg (ownerFor cfg ctx fn) gen st.reg D []).reg k := by
     intro k; have := hi.cntGe k; rw [q3]; omega
   obtain ⟨_, _, a3, a4, _, a6⟩ := unbind_spec cfg ctx var st.holders _ q1 hu pre
-  have hpos : cntOf (unbindReg cfg (acquireAll cfg (ownerFor cfg ctx fn) gen st.reg decl []).reg ctx var st.holders) k > 0 := by
+  have hpos : cntOf (unbindReg cfg (acquireAll cfg (ownerFor cfg ctx fn) gen st.reg D []).reg ctx var st.holders) k > 0 := by
     have c1 := List.count_pos_iff.mpr t1
     have h3 := a3 k
     have h6 := a6 k
@@ -398,6 +402,55 @@ theorem C12_latest_cex :
     aget s1 (run legacyCfg {} ops).reg.handler = some ⟨2, .none⟩ ∧
     aget s1 (run newCfg {} ops).reg.handler = some ⟨2, .none⟩ ∧
     sHandler (sRun [] ops) s1 = some ⟨1, .none⟩ := by decide
+
+/-- **What Home Assistant holds is what the key-indexed tables say** (both subsystems as they are now): Home Assistant
+files a service under its lower-cased name; since `service_register` / `service_remove` build their key from the
+lower-cased name too (`Cfg.foldCase`, read off the source), after EVERY operation sequence Home Assistant's own table
+equals the `handler` table all the theorems above speak about – whatever the letter case of the declared names. -/
+theorem C12_ha_agrees (cfg : Cfg) (hf : cfg.foldCase = true) (ops : List Op) :
+    (run cfg {} ops).reg.ha = (run cfg {} ops).reg.handler :=
+  (run_hl cfg hf ops {} hl_init).1
+
+theorem C12_ha_agrees_now (ops : List Op) :
+    (run legacyCfg {} ops).reg.ha = (run legacyCfg {} ops).reg.handler ∧
+    (run newCfg {} ops).reg.ha = (run newCfg {} ops).reg.handler :=
+  ⟨C12_ha_agrees legacyCfg (by decide) ops, C12_ha_agrees newCfg (by decide) ops⟩
+
+/-- **F9 – regression witness (both subsystems)**: two live functions declare `pyscript.Case1` and `pyscript.case1`.
+Before the repair the counts were kept per spelling: deleting `f` took `pyscript.Case1` to 0 and Home Assistant –
+which knows only `pyscript.case1` – removed the service `g` still declares (count 1, handler view: definition 2, Home
+Assistant: nothing).  With the lower-cased key the count is 2, then 1, and Home Assistant keeps definition 2. -/
+theorem C12_regress_case_variant :
+    let ops := [Op.define "a" (some "opA") "f" 1 [("pyscript.Case1", .none)],
+                .define "a" (some "opA") "g" 2 [("pyscript.case1", .none)], .delete "a" "f"]
+    (∀ cfg ∈ [caseSensitive legacyCfg, caseSensitive newCfg],
+      aget "pyscript.case1" (run cfg {} ops).reg.ha = none ∧ cntOf (run cfg {} ops).reg "pyscript.case1" = 1 ∧
+      aget "pyscript.case1" (run cfg {} ops).reg.handler = some ⟨2, .none⟩) ∧
+    (∀ cfg ∈ [legacyCfg, newCfg],
+      aget "pyscript.case1" (run cfg {} ops).reg.ha = some ⟨2, .none⟩ ∧ cntOf (run cfg {} ops).reg "pyscript.case1" = 1 ∧
+      cntOf (run cfg {} (ops.take 2)).reg "pyscript.case1" = 2) ∧
+    sHandler (sRun [] (ops.map lowOp)) "pyscript.case1" = some ⟨2, .none⟩ := by decide +kernel
+
+/-- **F9b – regression witness (both subsystems)**: ONE function, redefined with another spelling of its service name:
+the new definition is registered first (`pyscript.CASE1`, count 1), then the old function gives `pyscript.Case1` back –
+count 0, and Home Assistant removed the freshly registered service.  Now both spellings share one count (2, then 1). -/
+theorem C12_regress_case_variant_redefine :
+    let ops := [Op.define "a" (some "opA") "f" 1 [("pyscript.Case1", .none)],
+                .define "a" (some "opA") "f" 2 [("pyscript.CASE1", .optional)]]
+    (∀ cfg ∈ [caseSensitive legacyCfg, caseSensitive newCfg],
+      aget "pyscript.case1" (run cfg {} ops).reg.ha = none ∧ cntOf (run cfg {} ops).reg "pyscript.CASE1" = 1) ∧
+    (∀ cfg ∈ [legacyCfg, newCfg],
+      aget "pyscript.case1" (run cfg {} ops).reg.ha = some ⟨2, .optional⟩ ∧ cntOf (run cfg {} ops).reg "pyscript.case1" = 1) ∧
+    sHandler (sRun [] (ops.map lowOp)) "pyscript.case1" = some ⟨2, .optional⟩ := by decide +kernel
+
+/-- **F9 – the ownership side**: before the repair another global context could declare another spelling of a name it
+does not own and silently take the Home Assistant service over; now it is refused like the name itself. -/
+theorem C12_regress_case_variant_owner :
+    let ops := [Op.define "a" (some "opA") "f" 1 [("pyscript.Case1", .none)],
+                .define "b" (some "opA") "g" 2 [("pyscript.CASE1", .none)]]
+    (∀ cfg ∈ [caseSensitive legacyCfg, caseSensitive newCfg], aget "pyscript.case1" (run cfg {} ops).reg.ha = some ⟨2, .none⟩) ∧
+    (∀ cfg ∈ [legacyCfg, newCfg], aget "pyscript.case1" (run cfg {} ops).reg.ha = some ⟨1, .none⟩ ∧
+      aget "pyscript.case1" (run cfg {} ops).reg.owner = some ⟨"a", none⟩) := by decide +kernel
 
 /-- **F2 – regression witness (legacy)**: before the repair a function that named the same service twice registered it
 twice but remembered it once (`trigger_service` is a set): deleting the function left the service registered – count 1,
